@@ -17,7 +17,7 @@ EXPLANATION = (
     "the side without lines, and no arm leaves the loops early; (R-DIFFUNI) output_diff_unified writes the Display of "
     "unified_diff() of from_lines(old, new) with the missing-newline hint untouched; (R-DIFFSUMMARY) the Summary arm "
     "prints `<file_name>\\n`."
-    "Later rounds: (R-CHECKVERDICT); (R-DIFFBYTES) the bytes returned by output_diff_unified / output_diff reach create_diff's caller unmodified (no mutating Vec operation, also inside mapped closures).")
+    "Later rounds: (R-CHECKVERDICT); (R-DIFFBYTES) the bytes returned by output_diff_unified / output_diff reach create_diff's caller unmodified (no mutating Vec operation, also inside mapped closures). Round 22: (R-DIFFSER) every JSON mismatch record carries all six fields.")
 ASSUMPTIONS = ["similar::TextDiff computes a correct line diff and prints a correct unified diff",
                "the JSON convention for a side without lines is the range [index, index] with an empty text (frozen from the code)",
                "rustc MIR and Instance::try_resolve are trusted"]
